@@ -74,6 +74,9 @@ pub struct PlanSpec {
     /// Owning the clock includes varying it: output that embeds the time or the pid must differ between environments.
     pub clock_base: u64,
     pub pid: u64,
+    /// further environment variables of the tool (USER, HOME, LANG, TZ, HOSTNAME ...): the harness starts the tool
+    /// with an otherwise empty environment, so whatever is listed here is all it sees
+    pub extra_env: Vec<(String, String)>,
 }
 
 #[derive(Clone, Debug, Default)]
@@ -163,6 +166,7 @@ pub fn run_zeep(top: &Path, cwd: &Path, args: &[String], plan: &PlanSpec, tag: &
         .env("RUST_BACKTRACE", "0")
         .envs(plan.rust_log.map(|v| ("RUST_LOG", v)))
         .envs(plan.tmpdir.as_ref().map(|v| ("TMPDIR", v.as_os_str())))
+        .envs(plan.extra_env.iter().map(|(k, v)| (k.as_str(), v.as_str())))
         .stdin(Stdio::null())
         .stdout(Stdio::null());
     match (plan.stderr_full, std::fs::OpenOptions::new().write(true).open("/dev/full")) {
